@@ -186,8 +186,8 @@ def judge(ctx, binary, specs):
         ctx.stat("verdict:" + cls + ((":" + sig) if cls == "skip" else ""))
         ctx.stat("kernel:" + spec["kern"])
         ctx.stat("data:" + spec["kind"])
-        if spec.get("intr"):
-            ctx.stat("flat-manifold-clause-checked")
+        if spec.get("intr") and "flat" in v:
+            ctx.stat("flat-manifold-clause:" + ("verified-affine" if v["flat"][:1] in ("2", "0") else v["flat"]))
         ctx.stat("d=%d" % spec["d"])
         ctx.stat("k:" + ("min" if spec["k"] <= max(3, min_k(spec["method"], spec["d"])) else "N-1" if spec["k"] >= N - 1 else "mid"))
         if spec["op"] == "embed":
